@@ -1632,6 +1632,8 @@ def _link_oracle(cfg: dict, level: str) -> Tuple[Optional[List[Tuple]], Optional
                 chosen = ("const", it["value"])
             elif k == "const_factory":
                 chosen = ("factory", f"factory:{i}")
+            elif k == "func_builtin":
+                chosen = ("builtin-call", it["func"])
             elif k == "func":
                 if any(kw not in src_fields for kw in it["kwonly"]) or any(p not in params for p in it["pos"]):
                     return None, f"link_function parameter without source for {name}"
@@ -1674,6 +1676,10 @@ def _describe_arg(e: ast.expr, ns: Dict[str, dict], n_params: int) -> Tuple:
     if isinstance(e, ast.Call) and isinstance(e.func, ast.Name):
         d = ns.get(e.func.id, {})
         tag = d.get("tag")
+        for bname in ("list", "tuple"):
+            if (d.get("repr") == f"<class '{bname}'>" or (not d and e.func.id == bname)) and len(e.args) == 1 and not e.keywords \
+                    and isinstance(e.args[0], ast.Name) and e.args[0].id == "data":
+                return ("builtin-call", bname)
         if tag and tag.startswith("linked:"):
             pos = [_describe_arg(a, ns, n_params) for a in e.args]
             kws = sorted((str(k.arg), _describe_arg(k.value, ns, n_params)) for k in e.keywords)
@@ -1743,6 +1749,9 @@ def c13_pipeline_checks(repo: Repo, tier: str, res: CheckResult, seed: int) -> N
                 if isinstance(st, ast.Assign) and isinstance(st.targets[0], ast.Name) and isinstance(st.value, ast.Name):
                     alias[st.targets[0].id] = st.value.id
             ns = {name: cl[0]["namespace"].get(g, {}) for name, g in alias.items()}
+            for name, g in alias.items():      # `list_1 = list`: a builtin rendered by its own name
+                if not ns[name] and g in ("list", "tuple", "dict", "set", "frozenset"):
+                    ns[name] = {"repr": f"<class '{g}'>"}
             fn = next((x for x in tree.body if isinstance(x, ast.FunctionDef)), None)
             if fn is None or len(fn.body) != 1 or not isinstance(fn.body[0], ast.Return) or not isinstance(fn.body[0].value, ast.Call):
                 bad("PIPE.body", fname, "the coercer is not a single `return Constructor(...)`")
